@@ -6,7 +6,7 @@ set -u
 export GOFLAGS=-mod=mod GOPROXY=off GOSUMDB=off GOTOOLCHAIN=local
 D=$1; shift
 ID=$(basename $D)
-WT=/tmp/wt-check2-$ID
+WT=/var/tmp/wt-check2-$ID
 rm -rf $WT; mkdir -p $WT
 rsync -a --exclude .git /repo/ $WT/
 place=$(python3 -c "import json;print(json.load(open('$D/meta.json'))['demo_place'])")
